@@ -3,7 +3,7 @@ from __future__ import annotations
 
 import ast
 
-from sa.engine.facts import Bad, F
+from sa.engine.facts import Bad, F, atom
 from sa.engine.pattern import u, dump, find_all
 from sa.engine.source import norm, own_walk, stmt_of, AnalysisError
 from .common import lexically_inside, enclosing
@@ -66,6 +66,15 @@ def check(ctx):
         elif isinstance(n, ast.Call) and isinstance(n.func, ast.Attribute) and _is_ce(n.func.value) and n.func.attr in ("pop", "popitem", "clear"):
             removals.append((n.func.attr, stmt_of(n), n.args[0] if n.args else None))
     ctx.need("R20-a", call, "an eviction site (removal from the entry mapping)", len(removals), 1)
+    own_removals = []
+    for kind, st, keyexpr in list(removals):
+        # the holder of a key's lock may drop its *own* placeholder (e.g. when the computation failed): queued callers re-read
+        # tolerantly and start over (R20-b/R20-c), so nothing that anybody relies on disappears
+        if kind == "del" and isinstance(keyexpr, ast.Name) and keyexpr.id == KEY and in_lock(st):
+            own_removals.append(st)
+            removals.remove((kind, st, keyexpr))
+            ctx.require_at("R20-a", call, st, [[f"{CV} is initial_missing"]], instance="a caller removes its own key only while it holds the lock of that key's placeholder",
+                           what="removal of the own placeholder")
     for kind, st, keyexpr in removals:
         if kind != "del":
             ctx.ob("R20-a", call, f"removal by {kind}()", False, node=st,
@@ -225,6 +234,48 @@ def check(ctx):
         ctx.ob("R20-c", call, "the lock waited on is the one stored in the entry for this key", len(unp) == 1,
                detail="" if unp else f"`{lockname}` is not unpacked from {CE}[key]", by=(f"_, {lockname}, _ = cache_entry[key]",))
 
+    # every positional use of the key (move_to_end raises KeyError for a missing key) happens in the same suspension-free section in which
+    # the key was seen or put into the mapping: another task can evict it during any suspension
+    def ev_present(frag, node):
+        if frag is None:
+            return False
+        if node.kind == "test":
+            return False
+        if isinstance(frag, (ast.Assign, ast.AnnAssign)):
+            tg = frag.targets if isinstance(frag, ast.Assign) else [frag.target]
+            if any(isinstance(t, ast.Subscript) and _is_ce(t.value) and isinstance(t.slice, ast.Name) and t.slice.id == KEY for t in tg):
+                return True
+            v = frag.value
+            if isinstance(v, ast.Subscript) and _is_ce(v.value) and isinstance(v.slice, ast.Name) and v.slice.id == KEY:
+                return True
+        return False
+
+    def ev_present_test(frag, node):
+        return node.kind == "test" and ENT is not None and atom(node.node)[0] == f"{ENT} is None"
+
+    def ev_susp(frag, node):
+        if node.info.get("async"):
+            return True
+        return frag is not None and node.kind != "test" and any(isinstance(x, ast.Await) for x in [frag] + list(own_walk(frag)))
+
+    def step_p(st, e, c):
+        if c.is_exc:
+            return st if e != "susp" else "unknown"
+        if e == "present":
+            return "present"
+        if e == "ptest":
+            return "present" if (f"{ENT} is None", False) in c.facts else st
+        if e == "susp":
+            return "unknown"
+        if e == "use":
+            if st != "present":
+                return Bad("the key's position is refreshed (move_to_end) after a suspension point since the key was last seen in the mapping: it can have been "
+                           "evicted meanwhile and KeyError escapes to the caller")
+        return st
+
+    ctx.paths("R20-b", call, [("present", [ev_present]), ("ptest", [ev_present_test]), ("use", f"{CE}.move_to_end({KEY})"), ("susp", [ev_susp])], step_p, "unknown", None,
+              instance="positional use of the key only while it is known to be present")
+
     # ---- R20-d bounded retention is atomic with insertion ---------------------------------------------------------------------------------------
     def is_susp(frag, node):
         if node.kind == "with_exit" and node.info.get("async"):
@@ -291,7 +342,8 @@ def check(ctx):
                 if name == "dec":
                     return bool(find_all("self._currsize -= 1", frag))
                 if name == "evict":
-                    return bool(find_all(f"del {CE}[$K]", frag)) or bool(find_all(f"{CE}.popitem($*A)", frag)) or bool(find_all(f"{CE}.pop($*A)", frag))
+                    dels = [m for m, b in find_all(f"del {CE}[$K]", frag) if not (isinstance(b["K"], ast.Name) and b["K"].id == KEY)]
+                    return bool(dels) or bool(find_all(f"{CE}.popitem($*A)", frag)) or bool(find_all(f"{CE}.pop($*A)", frag))
                 return False
             return f
 
